@@ -161,13 +161,18 @@ def parse_aux(text, incdir):
 
 
 def extract_functions(cc, cflags, tree, header, workdir):
-    """Functions visible to a TU that includes only cstl/<header>. -> (list | None, diagnostics)."""
+    """Functions visible to a TU that includes cstl/<header> (or, given a list, those headers in that order: what a
+    header declares may depend on what was included before it). -> (list | None, diagnostics)."""
     os.makedirs(workdir, exist_ok=True)
-    base = header.replace('.', '_')
+    hl = [header] if isinstance(header, str) else list(header)
+    base = '__'.join(h.replace('.', '_') for h in hl)
+    if len(base) > 120:
+        base = 'list_%08x' % (hash(tuple(hl)) & 0xffffffff)
     src = os.path.join(workdir, 'aux_%s.c' % base)
     aux = os.path.join(workdir, 'aux_%s.txt' % base)
     with open(src, 'w') as f:
-        f.write('#include "cstl/%s"\n' % header)
+        for h in hl:
+            f.write('#include "cstl/%s"\n' % h)
     rc, out = _run([cc] + cflags + ['-O0', '-I' + os.path.join(tree, 'include'), '-aux-info', aux,
                                    '-fsyntax-only', src])
     if rc != 0 or not os.path.exists(aux):
@@ -581,14 +586,45 @@ def run(ctx):
         bump('symbols_checked_a', len(externs))
         bump('symbols_missing_so', len(missing_so))
         bump('symbols_missing_a', len(missing_a))
+        # a client's own functions live in the same global namespace as everything the library exports: a global symbol
+        # outside the library's prefix (say a private `reallocarray`) is a duplicate symbol waiting for the first client
+        # that defines that name (static library), or silently replaced by it (shared library)
+        linker_own = {'_init', '_fini', '_edata', '_end', '__bss_start', '_ITM_deregisterTMCloneTable', '_ITM_registerTMCloneTable',
+                      '__gmon_start__', '__cxa_finalize'}
+        foreign_syms = sorted(n for n in (so_syms | a_syms) if 'cstl' not in n.lower() and n not in linker_own)
+        bump('exported_symbols_outside_prefix', len(foreign_syms))
 
         # ---- 3. client programs
         lists, exhaustive = header_lists(headers, rng, tier, budget)
         stats['exhaustive'] = exhaustive
         stats['header_lists'] = len(lists)
         programs = []
+        # what a combination declares is taken from a translation unit that really includes it, in that order (a
+        # declaration under `#ifdef OTHER_HEADER_H` exists only there); the per-header union is the fallback
+        multi = [tuple(hl) for kind, hl in lists if len(hl) >= 2]
+        listfuncs = {}
+        with concurrent.futures.ThreadPoolExecutor(max_workers=njobs) as ex:
+            futs = {hl: ex.submit(extract_functions, cc, cflags, tree, list(hl), os.path.join(work, 'aux')) for hl in set(multi)}
+            for hl, fu in futs.items():
+                r_, _d = fu.result()
+                if r_ is not None:
+                    listfuncs[hl] = r_
+        extra_decl = {}
+        for hl, fl_ in listfuncs.items():
+            for (name, st, df, fl2, ln) in fl_:
+                if name not in allf:
+                    extra_decl.setdefault(name, (st, df, fl2, ln))
+        bump('functions_declared_only_in_combinations', len(extra_decl))
+        for name, v in extra_decl.items():
+            allf[name] = v
+            if not v[0]:
+                nm_ = name.lstrip('&')
+                if nm_ not in so_syms and nm_ not in missing_so:
+                    missing_so.append(nm_)
+                if nm_ not in a_syms and nm_ not in missing_a:
+                    missing_a.append(nm_)
         for kind, hl in lists:
-            fl = funcs_of(hl)
+            fl = [t[0] for t in listfuncs[tuple(hl)]] if tuple(hl) in listfuncs else funcs_of(hl)
             for tus in (1, 2):
                 for link in ('static', 'shared'):
                     for usage in ('include', 'addr'):
@@ -659,6 +695,14 @@ def run(ctx):
                 k = '%s: tus=%d link=%s usage=%s' % (p.stage, p.tus, p.link, p.usage)
                 br[k] = br.get(k, 0) + 1
             stats['failure_breakdown'] = dict(sorted(br.items()))
+        if foreign_syms and not (missing_so or missing_a) and not failures:
+            msg = ('the library exports %d global symbol(s) outside its own prefix: %s; a client program that defines the same name gets a '
+                   'duplicate symbol against libcstl.a (or silently replaces the library\'s function in libcstl.so)' % (len(foreign_syms), ', '.join(foreign_syms[:6])))
+            steps = 'fail=0\n' + '\n'.join('nm -g --defined-only "$T/build/libcstl.a" | awk \'$NF == "%s" { f = 1 } END { exit f }\' || { echo "libcstl.a exports %s"; fail=1; }' % (n, n)
+                                            for n in foreign_syms[:6]) + \
+                    '\nif [ $fail -ne 0 ]; then echo "REPRODUCED C18.symbol_namespace"; exit 1; fi\necho "not reproduced"; exit 0\n'
+            rp = save_replay(ctx, 'C18.symbol_namespace', msg, {}, steps, 'exported outside the prefix: %s' % foreign_syms, 'symbols')
+            return finish(('C18.symbol_namespace', rp, msg))
         if missing_so or missing_a:
             names = sorted(set(missing_so) | set(missing_a))
             where = []
